@@ -462,41 +462,61 @@ def decodeType0 (ext : Ext) (data : Bytes) (oid : Nat) : M GoVal :=
     | some elemOid => ext.decodeArray data elemOid
     | none => decodeScalar0 ext data oid
 
-/-- decodeRange; `DecodeType(bound, elemOid)` re-enters the non-range part of the dispatch -/
+/-- element type and element size of the range types with fixed-width bounds (the inner `switch`) -/
+def rangeElem (oid : Nat) : Option (Nat × Nat) :=
+  if oid = OidInt4Range then some (OidInt4, 4)
+  else if oid = OidInt8Range then some (OidInt8, 8)
+  else if oid = OidDateRange then some (OidDate, 4)
+  else if oid = OidTsRange then some (OidTimestamp, 8)
+  else if oid = OidTsTzRange then some (OidTimestampTZ, 8)
+  else none
+
+/-- one bound: `if offset+elemSize > dataEnd { return "[?,?]" }` (= `none`), else
+`fmt.Sprintf("%v", DecodeType(data[offset:offset+elemSize], elemOid))` — DecodeType re-enters the
+non-range part of the dispatch -/
+def readBound (ext : Ext) (data : Bytes) (offset elemSize elemOid : Nat) : M (Option Bytes) :=
+  if offset + elemSize > data.length - 1 then pure none
+  else do
+    let s ← slice data offset (offset + elemSize)
+    let v ← decodeType0 ext s elemOid
+    pure (some (fmtV v))
+
+/-- lower bound: its text and the offset after it (`none` = the `"[?,?]"` exit) -/
+def rangeLower (ext : Ext) (data : Bytes) (flags elemOid elemSize : Nat) : M (Option (Bytes × Nat)) :=
+  if flags &&& 0x08 != 0 then pure (some ([], 4))
+  else do
+    match ← readBound ext data 4 elemSize elemOid with
+    | none => pure none
+    | some lb => pure (some (lb, 4 + elemSize))
+
+/-- upper bound, at the (repaired) aligned offset: `align(offset+4, elemSize) - 4` -/
+def rangeUpper (ext : Ext) (data : Bytes) (flags elemOid elemSize offset : Nat) : M (Option Bytes) :=
+  if flags &&& 0x10 != 0 then pure (some [])
+  else readBound ext data (if elemSize > 1 then align (offset + 4) elemSize - 4 else offset) elemSize elemOid
+
+/-- the output format of decodeRange -/
+def rangeOut (flags : Nat) (lb ub : Bytes) : GoVal :=
+  .str ([if flags &&& 0x02 != 0 then 91 else 40] ++ (if flags &&& 0x08 != 0 then [44] else lb ++ [44]) ++
+    (if !(flags &&& 0x10 != 0) then ub else []) ++ [if flags &&& 0x04 != 0 then 93 else 41])
+
+/-- the part of decodeRange after the element type is known -/
+def decodeRangeFixed (ext : Ext) (data : Bytes) (flags elemOid elemSize : Nat) : M GoVal := do
+  match ← rangeLower ext data flags elemOid elemSize with
+  | none => pure (lit "[?,?]")
+  | some (lb, offset) =>
+    match ← rangeUpper ext data flags elemOid elemSize offset with
+    | none => pure (lit "[?,?]")
+    | some ub => pure (rangeOut flags lb ub)
+
+/-- types.go:decodeRange -/
 def decodeRange (ext : Ext) (data : Bytes) (oid : Nat) : M GoVal := do
   if data.length < 5 then return lit "empty"
   let flags := (← idx data (data.length - 1)).toNat
   if flags &&& 0x01 != 0 then return lit "empty"
-  let lbInc := flags &&& 0x02 != 0
-  let ubInc := flags &&& 0x04 != 0
-  let lbInf := flags &&& 0x08 != 0
-  let ubInf := flags &&& 0x10 != 0
-  if oid == OidNumRange then return decodeNumericRange flags
-  let es : Option (Nat × Nat) :=
-    if oid == OidInt4Range then some (OidInt4, 4)
-    else if oid == OidInt8Range then some (OidInt8, 8)
-    else if oid == OidDateRange then some (OidDate, 4)
-    else if oid == OidTsRange then some (OidTimestamp, 8)
-    else if oid == OidTsTzRange then some (OidTimestampTZ, 8)
-    else none
-  match es with
+  if oid = OidNumRange then return decodeNumericRange flags
+  match rangeElem oid with
   | none => return .str (asc "range:" ++ hexBytes data)
-  | some (elemOid, elemSize) =>
-    let dataEnd := data.length - 1
-    let q : GoVal := lit "[?,?]"
-    let mut offset := 4
-    let mut lb : Bytes := []
-    let mut ub : Bytes := []
-    if !lbInf then
-      if offset + elemSize > dataEnd then return q
-      lb := fmtV (← decodeType0 ext (← slice data offset (offset + elemSize)) elemOid)
-      offset := offset + elemSize
-    if !ubInf then
-      if elemSize > 1 then offset := align (offset + 4) elemSize - 4
-      if offset + elemSize > dataEnd then return q
-      ub := fmtV (← decodeType0 ext (← slice data offset (offset + elemSize)) elemOid)
-    return .str ([if lbInc then 91 else 40] ++ (if lbInf then [44] else lb ++ [44]) ++
-      (if !ubInf then ub else []) ++ [if ubInc then 93 else 41])
+  | some (elemOid, elemSize) => decodeRangeFixed ext data flags elemOid elemSize
 
 /-- types.go:decodeScalar -/
 def decodeScalar (ext : Ext) (data : Bytes) (oid : Nat) : M GoVal :=
